@@ -300,6 +300,25 @@ func runC05(w *W) {
 		model := cloneVal(val)
 		c.marshalAndCheck(tree, model, raw, !opts.StoreChildrenById && !opts.StoreChildrenByHash, "unedited")
 
+		// a deep copy (CopyTo) is a tree of its own as well: another value loaded into the copy must not show in the original
+		if t.Chance(1, 5, "tree.copyto") {
+			w.NextOp("PathNode.CopyTo + Load of another value into the copy")
+			var cp generic.PathNode
+			tree.CopyTo(&cp)
+			vg.o.nodes = 0
+			val2 := vg.value(rootT, vg.o.Depth)
+			raw2 := encodeThrift(nil, val2)
+			in2 := w.AllocData(raw2, simrt.PlaceHeap)
+			cp.Node = generic.NewNode(thrift.Type(rootT.Kind), in2.B)
+			w.opFacts = c.facts
+			if err := cp.Load(rec, opts); err != nil {
+				w.Failf("load-failed", c.facts, "Load of a well-formed value into a copied tree failed: %v", err)
+			}
+			w.opFacts = nil
+			c.marshalAndCheck(&cp, cloneVal(val2), nil, false, "copy")
+			c.marshalAndCheck(tree, model, nil, false, "original-after-copy")
+			w.Count("tree_copies")
+		}
 		// a fork of the tree is a tree of its own: edits of either must not show in the other
 		var fork *generic.PathNode
 		var forkModel *TVal
